@@ -328,16 +328,31 @@ Print Assumptions C20_layer_values_distinguished.
 
 (* observations about the normalisation expressions (what reaches Matplotlib):
    - imshow colour mode does not saturate at vmax when alpha < 1 (clip(normalized * alpha)), hexagons do (clip(normalized) * alpha)
-   - with vmin = vmax (a constant layer under the default scale) the imshow colour mode hands over NaN alpha, hexagons alpha 0 *)
+   - with vmin = vmax (a constant layer under the default scale) colour mode gives alpha 0 everywhere (as repaired by
+     fixes/C20-11; the unrepaired imshow branch divided by zero: NaN alpha), colormap mode shows the entries *)
 Theorem C20_layer_scale_observations :
   (shown Orth true 0 4 2 8 <> shown Orth true 0 4 2 4 /\ shown Hex true 0 4 2 8 = shown Hex true 0 4 2 4) /\
-  (forall lo, shown_degenerate Orth true lo lo = NAN /\ shown_degenerate Hex true lo lo = 0) /\
+  (forall lo v, shown_degenerate Orth true lo v = 0 /\ shown_degenerate Hex true lo v = 0) /\
   (forall lo v, shown_degenerate Orth false lo v = v).
 Proof.
   split; [split; [vm_compute; discriminate|vm_compute; reflexivity]|].
-  split; [intros lo; unfold shown_degenerate; rewrite Z.eqb_refl; split; reflexivity|reflexivity].
+  split; [intros lo v; split; reflexivity|reflexivity].
 Qed.
 Print Assumptions C20_layer_scale_observations.
+
+(* "property layers are drawn from their current values": NO value is ever shown wrongly - for every scale
+   vmin <= vmax (degenerate or not), family, mode and alpha the displayed intensity is monotone in the layer value
+   (a larger value is never shown weaker; strictly increasing inside a proper scale: C20_layer_values_distinguished)
+   and in colour mode it is always a proper alpha in [0, 1] (units: 4 (vmax - vmin)), never NaN or infinite *)
+Theorem C20_layer_value_monotone : forall fam cm lo hi a4 v v',
+  lo <= hi -> 0 < a4 <= 4 -> v <= v' -> value_shown fam cm lo hi a4 v <= value_shown fam cm lo hi a4 v'.
+Proof. exact value_shown_monotone. Qed.
+Print Assumptions C20_layer_value_monotone.
+
+Theorem C20_layer_alpha_proper : forall fam lo hi a4 v,
+  lo <= hi -> 0 < a4 <= 4 -> 0 <= value_shown fam true lo hi a4 v <= 4 * (hi - lo).
+Proof. exact value_shown_alpha. Qed.
+Print Assumptions C20_layer_alpha_proper.
 
 (* ModelCreator: the keyword arguments the model is (re)created with are exactly one (name, value) per given
    parameter - the fixed value itself, or the initial value of the Slider / option dict - nothing lost or invented *)
@@ -454,5 +469,6 @@ Example C20_example_round3 :
     = [0; 1; 1; 0; 0; 0; 1] /\
   creator_kwargs [(1, VFixed 5); (2, VSlider 6); (3, VDictType 7); (4, VDictNoType 8)] = [(1, 5); (4, 8); (2, 6); (3, 7)] /\
   obs_layer ex_space [[3; 3]; [3; 3]; [3; 3]] true None None 4 true = [0; 2; 3; 0; 0; 0; 0; 0; 0; 1] /\
-  obs_layer (c_space enc_case) [[3]; [5]] true (Some 3) (Some 3) 4 false = [0; 1; 2; -7; 4; 0].
+  obs_layer (c_space enc_case) [[3]; [5]] true (Some 3) (Some 3) 4 false = [0; 1; 2; 0; 0; 0] /\
+  value_shown Orth true 0 8 2 5 = 10 /\ value_shown Hex true 0 8 2 5 = 10 /\ value_shown Orth true 0 8 2 20 = 32.
 Proof. vm_compute. repeat split; reflexivity. Qed.
